@@ -21,10 +21,19 @@
    family "lambda"   calls with a function argument (first / last / only / twice, in a method chain, nested, in a table
                      field) whose body has 1-2 statements, written on one line and on several lines  x  2 configurations.
 
+   family "semi"     (second seeded round, C05) a statement that ends in an expression and is closed by `;`, then nothing /
+                     a line comment / a doc comment / a long comment / several comments (same line and own lines), then
+                     a statement that starts with `(`: the `;` is NOT optional there (`x = y; -- c` NL `(f)()` without it
+                     is the single statement `x = y(f)()`), however many comments stand in between.  x 3 configurations
+                     (semicolons dropped = default, preserved, narrow width).
+   family "blank"    (second seeded round, C06) tables, call argument lists, parameter lists and blocks with one or two
+                     blank lines directly after the opening bracket / keyword and / or directly before the closing one,
+                     WITHOUT comments, short enough for one line  x  the base + 4 corner configurations.
+
    Every state is one finished case, printed by FmtGen!Emit as {text, cfg, n, kinds = <<family>>}.  *)
 EXTENDS FmtGen, Randomization
 
-CONSTANTS Families,   \* subset of {"quote", "comment", "doc", "lambda"}
+CONSTANTS Families,   \* subset of {"quote", "comment", "doc", "lambda", "semi", "blank"}
           Full,       \* FALSE: pairwise configuration sets (quick); TRUE: full products (thorough)
           PerPoint    \* Full only: programs drawn per configuration point
 
@@ -129,6 +138,49 @@ LambdaProgs == UNION {LamCalls(LamOne(b)) \cup LamCalls(LamMulti(b)) : b \in Lam
 LambdaCfgs == {BaseCfg, Cfg("Preserve", "Preserve", "Never", FALSE, 120, "s2", TRUE, TRUE, "Always")}
 
 \* ---------------------------------------------------------------------------------------------
+\* family "semi": `stat ;` <comments> `( .. )( .. )` -- the semicolon separates two statements and must survive
+\* ---------------------------------------------------------------------------------------------
+SemiHeads == {"x = y;", "x = y ;", "local t = g();", "f(a);", "x.y = t[1];"}
+SemiGaps == {" ", NL, " -- call it" \o NL, NL \o "-- own line" \o NL, " --[[ blk ]] ", " --[[ blk ]]" \o NL,
+             NL \o "--[==[ long" \o NL \o "  comment ]==]" \o NL, " ---@type T" \o NL,
+             NL \o "---@diagnostic disable-next-line: undefined-global" \o NL,
+             " -- a" \o NL \o "-- b" \o NL \o NL \o "--[[ c ]]" \o NL}
+SemiTails == {"(f)()", "(h or print)(t)", "(f or g)(1):m()"}
+SemiWrap(s, w) == IF w = "top" THEN s ELSE "do" \o NL \o "    " \o s \o NL \o "end"
+SemiProgs == {SemiWrap(h \o g \o t, w) : h \in SemiHeads, g \in SemiGaps, t \in SemiTails, w \in {"top", "do"}}
+SemiCfgs == {BaseCfg, Cfg("Preserve", "Preserve", "Never", TRUE, 120, "s4", FALSE, TRUE, "Auto"),
+             Cfg("Double", "Omit", "Never", FALSE, 24, "s2", FALSE, TRUE, "Auto")}
+
+\* ---------------------------------------------------------------------------------------------
+\* family "blank": blank lines directly inside a bracket pair / block, no comments (o = text after the opener,
+\* c = text before the closer: empty, one or two blank lines)
+\* ---------------------------------------------------------------------------------------------
+BlankShell(k, o, c) ==
+  CASE k = "rec"    -> "local t = {" \o NL \o o \o "    a = 1," \o NL \o "    b = 2," \o NL \o c \o "}"
+    [] k = "arr"    -> "local t = {" \o NL \o o \o "    1, 2, 3" \o NL \o c \o "}"
+    [] k = "mod"    -> "local M = {}" \o NL \o NL \o "M.defaults = {" \o NL \o o \o "    enabled = true," \o NL \o "    level = 3,"
+                         \o NL \o c \o "}" \o NL \o NL \o "return M"
+    [] k = "nest"   -> "local t = { k = {" \o NL \o o \o "    1," \o NL \o "    2" \o NL \o c \o "} }"
+    [] k = "ret"    -> "return {" \o NL \o o \o "    x = 'a'" \o NL \o c \o "}"
+    [] k = "targ"   -> "f({" \o NL \o o \o "    a = 1" \o NL \o c \o "})"
+    [] k = "arg"    -> "foo(" \o NL \o o \o "    a," \o NL \o "    b" \o NL \o c \o ")"
+    [] k = "marg"   -> "local r = o:m(" \o NL \o o \o "    1, 'x'" \o NL \o c \o ")"
+    [] k = "param"  -> "local function f(" \o NL \o o \o "    a," \o NL \o "    b" \o NL \o c \o ")" \o NL \o "    return a" \o NL \o "end"
+    [] k = "lparam" -> "local g = function(" \o NL \o o \o "    a, ..." \o NL \o c \o ")" \o NL \o "end"
+    [] k = "do"     -> "do" \o NL \o o \o "    f()" \o NL \o c \o "end"
+    [] k = "if"     -> "if a then" \o NL \o o \o "    f()" \o NL \o c \o "else" \o NL \o o \o "    g()" \o NL \o c \o "end"
+    [] k = "func"   -> "function M.g(a)" \o NL \o o \o "    return a" \o NL \o c \o "end"
+    [] k = "lfunc"  -> "local h = function()" \o NL \o o \o "    f()" \o NL \o c \o "end"
+    [] k = "while"  -> "while a do" \o NL \o o \o "    f()" \o NL \o c \o "end"
+    [] k = "for"    -> "for i = 1, 2 do" \o NL \o o \o "    f(i)" \o NL \o c \o "end"
+    [] k = "repeat" -> "repeat" \o NL \o o \o "    f()" \o NL \o c \o "until a"
+BlankKinds == {"rec", "arr", "mod", "nest", "ret", "targ", "arg", "marg", "param", "lparam", "do", "if", "func", "lfunc",
+               "while", "for", "repeat"}
+BlankFill == {<<NL, "">>, <<"", NL>>, <<NL, NL>>, <<NL \o NL, "">>, <<"", NL \o NL>>, <<NL \o NL, NL \o NL>>}
+BlankProgs == {BlankShell(k, f[1], f[2]) : k \in BlankKinds, f \in BlankFill}
+BlankCfgs == {BaseCfg} \cup Corners
+
+\* ---------------------------------------------------------------------------------------------
 FInit ==
   /\ n = 1 /\ done = TRUE /\ lc = FALSE
   /\ \E fam \in Families :
@@ -137,5 +189,7 @@ FInit ==
             [] fam = "comment" -> cfg \in CommentCfgs /\ prog \in ProgsFor(GroupProgs)
             [] fam = "doc" -> cfg \in DocCfgs /\ prog \in ProgsFor(DocProgs)
             [] fam = "lambda" -> cfg \in LambdaCfgs /\ prog \in LambdaProgs
+            [] fam = "semi" -> cfg \in SemiCfgs /\ prog \in SemiProgs
+            [] fam = "blank" -> cfg \in BlankCfgs /\ prog \in BlankProgs
 FSpec == FInit /\ [][UNCHANGED vars]_vars
 =============================================================================
